@@ -24,7 +24,7 @@ struct Reply {
     ct: Option<Vec<u8>>,
     framing: String, // cl | chunked | close
     body: Vec<u8>,
-    fault: String,   // none | refused | close_before | truncated | garbage_status | location
+    fault: String,   // none | refused | close_before | truncated | garbage_status | location | huge_cl63 | huge_clmax | huge_cl40
 }
 
 #[derive(Clone, Debug, Default)]
@@ -185,7 +185,14 @@ fn write_reply(s: &mut TcpStream, r: &Reply, port: u16) {
             let _ = s.write_all(&r.body);
         }
         _ => {
-            let announced = if truncated { r.body.len() + 7 } else { r.body.len() };
+            // huge_cl*: a Content-Length no buffer can be sized for, then the body and a close
+            let announced: u64 = match r.fault.as_str() {
+                "huge_cl63" => 1u64 << 63,
+                "huge_clmax" => u64::MAX - 2,
+                "huge_cl40" => 1u64 << 40,
+                _ if truncated => r.body.len() as u64 + 7,
+                _ => r.body.len() as u64,
+            };
             head.extend_from_slice(format!("Content-Length: {}\r\nConnection: close\r\n\r\n", announced).as_bytes());
             let _ = s.write_all(&head);
             let _ = s.write_all(&r.body);
